@@ -152,6 +152,52 @@ def raise_exits(vfg: VFG):
     return [(fn, node, norm_path(path), v) for kind, fn, node, path, v in vfg.exits if kind == "raise"]
 
 
+def expanded_raise_exits(vfg: VFG, max_alts: int = 16):
+    """raise_exits with every condition that is the RESULT OF A HELPER WITH SEVERAL RETURNS replaced by the conditions of
+    the helper's own return paths: `if self._is_bad(x): raise` with `_is_bad` = `if a: return True; return b` raises
+    under `a`, and under `not a and b`.  [(function, node, path, value)] -- one entry per alternative."""
+    from ..terms import uncopy
+    results = {}
+    for cf, vars_, caller, node, res_ in vfg.callsites:
+        if res_ is not None:
+            results.setdefault(uncopy(res_).id, cf)
+            results.setdefault(res_.id, cf)
+    rets: Dict[str, list] = {}
+    for kind, fn, node, path, val in vfg.exits:
+        if kind == "return":
+            rets.setdefault(fn.qual, []).append((norm_path(path), val))
+    out = []
+    for fn, node, path, val in raise_exits(vfg):
+        alts = [[]]
+        for t, pol, pf in path:
+            t0 = uncopy(t)
+            cf = results.get(t0.id, results.get(t.id))
+            rr = rets.get(cf.qual, []) if cf is not None else []
+            if cf is None or len(rr) < 2 or t0.kind not in ("phi", "choice"):
+                alts = [a + [(t, pol, pf)] for a in alts]
+                continue
+            new_alts = []
+            for rpath, rval in rr:
+                # keep only the part of the return path that belongs to the helper itself
+                own = [(x, p_, f_) for x, p_, f_ in rpath if f_ is cf]
+                if rval is None:
+                    continue
+                rv = strip_cast(uncopy(rval))
+                if rv.kind == "const" and isinstance(rv.args[0], bool):
+                    if rv.args[0] != pol:
+                        continue
+                    ext_ = own
+                else:
+                    c_, p2 = norm_cond(rv, pol)
+                    ext_ = own + [(c_, p2, cf)]
+                for a in alts:
+                    new_alts.append(a + ext_)
+            alts = new_alts[:max_alts] if new_alts else [a + [(t, pol, pf)] for a in alts]
+        for a in alts:
+            out.append((fn, node, a, val))
+    return out
+
+
 def as_proj(t: T):
     """(base, i) for the i-th component of a tuple-valued term written either by unpacking or by constant indexing."""
     if t.kind == "proj":
